@@ -1131,6 +1131,9 @@ func ruleWR6(c *Ctx) {
 					for _, uu := range *x.Referrers() {
 						if call, ok := uu.(ssa.CallInstruction); ok {
 							if n := calleeFullName(call.Common()); n != "bufio.NewScanner" && n != "bufio.NewReader" && n != "bufio.NewReaderSize" {
+								if c.scannerConstructor(calleeOf(call.Common()), x, call) {
+									continue // a helper that only wraps the handle in the one sequential scanner
+								}
 								bad = "handle passed to " + n
 							}
 						}
@@ -1215,9 +1218,11 @@ func ruleWR6(c *Ctx) {
 			}
 		}
 		splitFns := map[*ssa.Function]bool{}
-		for _, call := range callsNamed(rd, "(*bufio.Scanner).Split") {
-			for _, f := range funcValuesOf(call.Common().Args[1], 0) {
-				splitFns[f] = true
+		for _, g := range append([]*ssa.Function{rd}, c.scannerConstructorsOf(rd)...) {
+			for _, call := range callsNamed(g, "(*bufio.Scanner).Split") {
+				for _, f := range funcValuesOf(call.Common().Args[1], 0) {
+					splitFns[f] = true
+				}
 			}
 		}
 		// the split function may look at what the line splitter found, but hands it on unchanged: every line of the log
@@ -1439,4 +1444,56 @@ func ruleWR6(c *Ctx) {
 		c.check(cnt == 1 && !loop, c.Name(e), "iv:single-load", c.FnPos(e), "the log is read exactly once per command",
 			fmt.Sprintf("%d load sites (loop=%v): output would mix two snapshots of a log that writers are extending", cnt, loop))
 	}
+}
+
+// scannerConstructor: h is a module helper that receives the reader's handle (the interface value hv, passed at call)
+// and does nothing with it but hand it to bufio.NewScanner / NewReader: the helper that builds the reader's scanner.
+func (c *Ctx) scannerConstructor(h *ssa.Function, hv ssa.Value, call ssa.CallInstruction) bool {
+	if h == nil || h.Blocks == nil || !c.InModule(h) {
+		return false
+	}
+	idx := -1
+	for i, a := range call.Common().Args {
+		if a == hv {
+			idx = i
+		}
+	}
+	if idx < 0 || idx >= len(h.Params) || h.Params[idx].Referrers() == nil {
+		return false
+	}
+	n := 0
+	for _, r := range *h.Params[idx].Referrers() {
+		switch x := r.(type) {
+		case *ssa.DebugRef:
+		case ssa.CallInstruction:
+			if nm := calleeFullName(x.Common()); nm != "bufio.NewScanner" && nm != "bufio.NewReader" && nm != "bufio.NewReaderSize" {
+				return false
+			}
+			n++
+		default:
+			return false
+		}
+	}
+	return n == 1
+}
+
+// scannerConstructorsOf: the scanner-building helpers the reader hands its handle to.
+func (c *Ctx) scannerConstructorsOf(rd *ssa.Function) []*ssa.Function {
+	var out []*ssa.Function
+	for _, call := range callsIn(rd) {
+		h := calleeOf(call.Common())
+		if h == nil || !c.InModule(h) || h.Blocks == nil {
+			continue
+		}
+		for _, a := range call.Common().Args {
+			mi, ok := a.(*ssa.MakeInterface)
+			if !ok || namedTypeName(mi.X.Type()) != "os.File" {
+				continue
+			}
+			if c.scannerConstructor(h, a, call) {
+				out = append(out, h)
+			}
+		}
+	}
+	return out
 }
